@@ -85,6 +85,10 @@ def rewrites():
                     k += c
                 forms.append("%s %s" % (" ".join("#[%s(%s)]" % (a, ", ".join(p)) for p in parts), item))
         R.append((d, "every ordered split of a type list over attributes", forms))
+    # a single field whose listed type is itself a tuple: the tuple is ONE type, not a list of per-field types
+    R.append(("From", "single field, tuple-typed conversion", ["#[from((u8, u16))] struct S((u32, u32));", "#[from((u8, u16),)] struct S((u32, u32));", "#[from((u8, u16))] #[from((u8, u16))] struct S((u32, u32));"][:2]))
+    R.append(("Into", "single field, tuple-typed conversion", ["#[into((u8, u16))] struct S((u8, u16));", "#[into((u8, u16),)] struct S((u8, u16));", "#[into(owned((u8, u16)))] struct S((u8, u16));"]))
+    R.append(("From", "one-element tuple type for one field", ["#[from((u8,))] struct S((u8,));", "#[from((u8,),)] struct S((u8,));"]))
     R.append(("Into", "default is owned", ["struct S(u8, u16);", "#[into] struct S(u8, u16);", "#[into(owned)] struct S(u8, u16);"]))
     R.append(("Into", "field-level lists", ["struct S { #[into(u16, u32)] a: u8, b: u8 }", "struct S { #[into(u16)] #[into(u32)] a: u8, b: u8 }", "struct S { #[into(owned(u32, u16))] a: u8, b: u8 }"]))
     for d, a in (("AsRef", "as_ref"), ("AsMut", "as_mut")):
@@ -227,6 +231,14 @@ def corruptions():
     add("Into", "unknown argument (is a type)", "#[into(ownedd)] struct S(u8);", rustc=True)
     add("Into", "mixing bare types with owned()", "#[into(u16, owned(u32))] struct S(u8);")
     add("Into", "duplicate skip", "struct S { #[into(skip)] #[into(ignore)] a: u8, b: u8 }")
+    for d, a in (("From", "from"), ("Into", "into")):
+        add(d, "tuple type shorter than the field list", "#[%s((u8, u8))] struct S(u32, u32, u32);" % a)
+        add(d, "tuple type shorter than the field list", "#[%s((u8,))] struct S(u32, u32, u32);" % a)
+        add(d, "tuple type longer than the field list", "#[%s((u8, u8, u8))] struct S(u32, u32);" % a)
+        add(d, "tuple type longer than the field list", "#[%s((u8, u8, u8, u8))] struct S { a: u32, b: u32 }" % a)
+        add(d, "non-tuple type for several fields", "#[%s(u8)] struct S(u32, u32);" % a)
+        add(d, "non-tuple type for several fields", "#[%s(u8, (u8, u8))] struct S(u32, u32, u32);" % a)
+    add("From", "tuple type shorter than the variant's field list", "enum E { #[from((u8,))] A(u32, u32), B }")
     add("Into", "legacy types()", "#[into(types(u16))] struct S(u8);")
     add("Into", "legacy owned(types())", "#[into(owned(types(u16)))] struct S(u8);")
     add("Into", "legacy types()", "#[into(types(u16, u32))] struct S(u8, u8);")
